@@ -397,9 +397,18 @@ def rechunk_pair(rng, fa):
     if isinstance(res, FromArray):
         return req, ("ok direct" if res.chunks == target and res.operand("_region") == region else "err DirectMismatch")
     if isinstance(res, Rechunk) and isinstance(res.array, FromArray):
-        if res.chunks != target or res.array.operand("_region") != region:
-            return req, "err RechunkMismatch"
-        return req, "ok read " + f_ll(res.array.chunks)
+        try:
+            if res.chunks != target or res.array.operand("_region") != region:
+                return req, "err RechunkMismatch"
+            out = [(req, "ok read " + f_ll(res.array.chunks))]
+            # asking the storage-aligned node again for the same target must decline (read == self.chunks)
+            inner = res.array
+            req2 = f"io.accept_rechunk {f_list(dims)} {f_regions(region)} {f_ll(inner.chunks)} {st} {f_ll(target)}"
+            r2 = inner._accept_rechunk(target)
+            out.append((req2, "none" if r2 is None else ("ok direct" if isinstance(r2, FromArray) else "ok read " + f_ll(r2.array.chunks))))
+            return out
+        except Exception as e:  # noqa: BLE001
+            return req, err_name(e)
     return req, "err UnexpectedResult"
 
 
@@ -413,6 +422,27 @@ def make_source(rng, shape, kind):
     if rng.random() < 0.15:
         return RecSource(arr, grid=tuple(1 for _ in shape), shards=grid), arr
     return RecSource(arr, grid=grid), arr
+
+
+class _Batched:
+    """answers driver requests from one batched run (one driver start-up instead of one per family)"""
+
+    def __init__(self, real, lines):
+        lines = list(dict.fromkeys(lines))
+        self.map = dict(zip(lines, real.run(lines)))
+
+    def run(self, lines):
+        return [self.map[l] for l in lines]
+
+
+def correspond_all(ctx, families):
+    real = ctx.driver
+    ctx._driver = _Batched(real, [r for _, pairs, _ in families for r, _ in pairs])
+    try:
+        for fam, pairs, bk in families:
+            ctx.correspond(fam, pairs, branch_key=bk)
+    finally:
+        ctx._driver = real
 
 
 def correspondence(ctx):
@@ -430,7 +460,7 @@ def correspondence(ctx):
         cks = gen.rand_chunks(rng, n, zeros=0.25, maxparts=8)
         sl = slices_from_chunks((cks,))
         pairs.append((f"io.slices_from_chunks {f_list(cks)}", "ok " + ";".join(f"{s[0].start}:{s[0].stop}" for s in sl)))
-    ctx.correspond("slices_from_chunks", pairs)
+    fams = [("slices_from_chunks", pairs, None)]
     pairs = []
     for _ in range(ctx.scale(1500, 15000)):
         n = rng.choice([0, 1, 2, 5, 9, 17, 100])
@@ -441,7 +471,7 @@ def correspondence(ctx):
         except Exception as e:  # noqa: BLE001
             impl = err_name(e)
         pairs.append((f"sl.sliced_chunks {f_list(cks)} {f_slice(s)} {n}", impl))
-    ctx.correspond("_compute_sliced_chunks", pairs)
+    fams.append(("_compute_sliced_chunks", pairs, None))
 
     # _accept_slice / _layer / _accept_rechunk along chains of real FromArray nodes
     acc, lay, rech = [], [], []
@@ -463,8 +493,14 @@ def correspondence(ctx):
         with np_limit(limit):
             for step in range(rng.randint(1, 4)):
                 lay.extend(layer_pairs(fa))
-                if rng.random() < 0.7:
-                    rech.append(rechunk_pair(rng, fa))
+                reg = fa.operand("_region")
+                ordered = reg is None or all(r.indices(d)[0] <= r.indices(d)[1] for r, d in zip(reg, fa.array.shape))
+                # a reversed unit-step region (start > stop) only arises from un-normalized helper input
+                # (Props/C24.lean `C24_region_ordered`); there _accept_rechunk yields a negative read chunk
+                # that normalize_chunks then refuses - outside the precondition, not compared
+                if ordered and rng.random() < 0.7:
+                    rp = rechunk_pair(rng, fa)
+                    rech.extend(rp if isinstance(rp, list) else [rp])
                 cur = fa._effective_shape
                 raw = rand_index(rng, cur)
                 if rng.random() < 0.8:
@@ -492,9 +528,10 @@ def correspondence(ctx):
                 fa = new
             else:
                 lay.extend(layer_pairs(fa))
-    ctx.correspond("FromArray._accept_slice", acc, branch_key=lambda req, m: (m.split(" ")[0], m[-12:], req.count("|")))
-    ctx.correspond("FromArray._layer", lay, branch_key=lambda req, m: (req.split(" ")[2] == "N", m.count(";"), "?" in m))
-    ctx.correspond("FromArray._accept_rechunk", rech, branch_key=lambda req, m: (m.split(" ")[:2] and tuple(m.split(" ")[:2]), req.split(" ")[2] == "N", req.split(" ")[4] == "N"))
+    fams.append(("FromArray._accept_slice", acc, lambda req, m: (m.split(" ")[0], m[-12:], req.count("|"))))
+    fams.append(("FromArray._layer", lay, lambda req, m: (req.split(" ")[2] == "N", m.count(";"), "?" in m)))
+    fams.append(("FromArray._accept_rechunk", rech,
+                 lambda req, m: (tuple(m.split(" ")[:2]), req.split(" ")[2] == "N", req.split(" ")[4] == "N")))
 
     # 1-d chains on a recording source: final region / chunks / emitted slices (real code) and
     # the positions NumPy selects
@@ -538,8 +575,9 @@ def correspondence(ctx):
         except ValueError as e:
             s_tok = "err-" + str(e)
         pairs.append((req, f"ok R={f_regions(fa.operand('_region'))} C={f_list(fa.chunks[0])} S={s_tok} P={f_list(ref)}"))
-    ctx.correspond("accept-chain(1-d):region/chunks/slices/NumPy positions", pairs,
-                   branch_key=lambda req, m: (m[:7], req.count("|"), m.count(";")))
+    fams.append(("accept-chain(1-d):region/chunks/slices/NumPy positions", pairs,
+                 lambda req, m: (m[:7], req.count("|"), m.count(";"))))
+    correspond_all(ctx, fams)
 
 
 # --------------------------------------------------------------------------- programs (search)
@@ -652,7 +690,11 @@ def run_case(case):
         except NotImplementedError as e:
             return None, {"refused": repr(e)}
         except Exception as e:  # noqa: BLE001
-            return f"raises:{type(e).__name__}", {"error": repr(e)[:300]}
+            sig = f"raises:{type(e).__name__}"
+            if isinstance(e, TypeError) and case["getitem"] == "g2" and "positional argument" in str(e):
+                # the documented `getitem(a, index)` signature called with (a, index, asarray, lock)
+                sig = "getitem-2arg-called-with-4"
+            return sig, {"error": repr(e)[:300]}
     bad = list(getattr(src, "bad", []))
     nreads = len(getattr(src, "log", []))
     if bad:
@@ -717,8 +759,8 @@ def shrink(case, sig, budget=120):
 
 def search(ctx):
     maxchain = ctx.scale(4, 8)
-    n = ctx.scale(700, 9000)
-    budget = ctx.scale(38, 420)
+    n = ctx.scale(3000, 40000)
+    budget = ctx.scale(35, 420)
     t0 = ctx.elapsed()
     done = 0
     total_reads = 0
